@@ -24,25 +24,98 @@ import (
 	"strconv"
 	"strings"
 	"sync"
+	"sync/atomic"
 	"syscall"
 	"time"
 
 	"go4.org/jsonconfig"
 	"perkeep.org/pkg/blob"
 	"perkeep.org/pkg/blobserver"
+	"perkeep.org/pkg/constants"
 	"perkeep.org/pkg/server"
 	"perkeep.org/pkg/sorted"
 )
 
 var ctx = context.Background()
 
+var sawTimeout atomic.Bool
+
 // ---- blobs ------------------------------------------------------------------------------------------
 
-func content(i int) []byte {
+// Boundary sizes sit on fixed ids (a ref is a content address, so there is exactly one empty blob):
+//
+//	0 -> 0 bytes (Pk.Sync.emptyBlob)   1 -> 1 byte
+//	4 -> 32768 (io.Copy's buffer)      5 -> 32769
+//	6 -> 65536                         7 -> 511
+//	8 -> constants.MaxBlobSize - 1     9 -> constants.MaxBlobSize
+//
+// every other id is a short text of 11..35 bytes.
+const emptyID = 0
+
+func sizedContent(i, n int) []byte {
+	b := make([]byte, n)
+	tag := fmt.Sprintf("c19-sized-%d|", i)
+	for k := range b {
+		b[k] = tag[k%len(tag)]
+	}
+	return b
+}
+
+var (
+	blobMu    sync.Mutex
+	blobCache = map[int][]byte{}
+	refCache  = map[int]blob.Ref{}
+)
+
+func makeContent(i int) []byte {
+	switch i {
+	case emptyID:
+		return []byte{}
+	case 1:
+		return []byte("a")
+	case 4:
+		return sizedContent(i, 32768)
+	case 5:
+		return sizedContent(i, 32769)
+	case 6:
+		return sizedContent(i, 65536)
+	case 7:
+		return sizedContent(i, 511)
+	case 8:
+		return sizedContent(i, constants.MaxBlobSize-1)
+	case 9:
+		return sizedContent(i, constants.MaxBlobSize)
+	}
 	return []byte(fmt.Sprintf("c19-blob-%d|", i) + strings.Repeat("x", (i*7)%23))
 }
 
-func refOf(i int) blob.Ref { return blob.RefFromBytes(content(i)) }
+// content returns the bytes of blob i (shared, read-only).
+func content(i int) []byte {
+	blobMu.Lock()
+	defer blobMu.Unlock()
+	b, ok := blobCache[i]
+	if !ok {
+		b = makeContent(i)
+		if i < 16 {
+			blobCache[i] = b
+		}
+	}
+	return b
+}
+
+func refOf(i int) blob.Ref {
+	b := content(i)
+	blobMu.Lock()
+	defer blobMu.Unlock()
+	r, ok := refCache[i]
+	if !ok {
+		r = blob.RefFromBytes(b)
+		if i < 16 {
+			refCache[i] = r
+		}
+	}
+	return r
+}
 
 // ---- a plain, non-verifying map store ---------------------------------------------------------------
 
@@ -321,6 +394,12 @@ func (s *genSrc) Fetch(_ context.Context, br blob.Ref) (rc io.ReadCloser, size u
 		case "fetchsize":
 			rc, size = io.NopCloser(bytes.NewReader(b)), uint32(len(b))+1
 		case "corrupt":
+			if len(b) == 0 {
+				// there is no other content of length zero: a corrupt read of the empty blob can
+				// only show up as a size mismatch
+				rc, size = io.NopCloser(bytes.NewReader([]byte{0})), 1
+				return nil
+			}
 			c := append([]byte(nil), b...)
 			c[len(c)/2] ^= 0x20
 			rc, size = io.NopCloser(bytes.NewReader(c)), uint32(len(c))
@@ -921,13 +1000,20 @@ func (e *Exec) stepLive(ws []string) string {
 		}
 		return "ok"
 	case len(ws) == 1 && ws[0] == "settle":
-		deadline := time.Now().Add(30 * time.Second)
+		// watchdog: the real loop polls every queueSyncInterval (5 s), so a pending blob may
+		// legitimately wait that long after a missed wake-up; more than two intervals is a stall
+		wd := 12 * time.Second
+		if sawTimeout.Load() {
+			wd = 7 * time.Second
+		}
+		deadline := time.Now().Add(wd)
 		for {
 			need, copying := e.pending()
 			if len(need) == 0 && len(copying) == 0 {
 				return e.Dump()
 			}
 			if time.Now().After(deadline) {
+				sawTimeout.Store(true)
 				return "timeout " + e.Dump()
 			}
 			time.Sleep(2 * time.Millisecond)
